@@ -80,3 +80,75 @@ Print Assumptions C06_pipeline_invariant.
 Print Assumptions C06_effective_root_single_branch.
 Print Assumptions C06_fresh_total_is_legal.
 Print Assumptions C06_pipeline_nonvacuous.
+
+(* ---- the counting sentence ("for a distilled network the number of terminals lies between the number of
+   full-dimensional activation regions and the number of non-empty closed ones"), for the structural model of
+   infeasible_elimination.  The activation regions of t are the entries of leaf_regions [] t (closed path polytopes
+   of the terminals, depth-first, child 0 first).  The terminals of the result are those of the input selected by a
+   mask m (never reordered, duplicated or altered); a terminal is kept only if its region -- in the INPUT tree -- is
+   non-empty within the containment tolerance, and is kept whenever that region is non-empty.  Same hypotheses as
+   C06_effective (oracle exact on the path polytopes); pinv: every legal input of a pipeline, incl. a root that lost
+   a branch.  tol = 0: the number of terminals IS the number of non-empty closed regions. ---- *)
+From AT Require Import ElimCount ElimCountRoot.
+Theorem C06_count_mask : forall o tol t, 0 <= tol -> (forall r, is_path [] t r -> oexact_at o r) -> mir_sound o tol ->
+  c_exists t = true -> okc_kids tol [] t -> st_wit tol [] (c_state t) ->
+  exists m : list bool,
+    length m = length (leaf_regions [] t) /\
+    leaf_funcs (fst (elim o tol t)) = select m (leaf_funcs t) /\
+    Forall2 (fun (b : bool) (R : rows) => (b = true -> ne_tol tol R) /\ (ne R -> b = true)) m (leaf_regions [] t).
+Proof. exact elim_count. Qed.
+Theorem C06_count_between : forall o tol t (full closed : list bool), 0 <= tol ->
+  (forall r, is_path [] t r -> oexact_at o r) -> mir_sound o tol ->
+  c_exists t = true -> okc_kids tol [] t -> st_wit tol [] (c_state t) ->
+  Forall2 (fun (b : bool) (R : rows) => b = true -> ne R) full (leaf_regions [] t) ->
+  Forall2 (fun (b : bool) (R : rows) => ne_tol tol R -> b = true) closed (leaf_regions [] t) ->
+  (count full <= nleaves (fst (elim o tol t)) <= count closed)%nat.
+Proof. exact elim_count_between. Qed.
+Theorem C06_count_exact_tol0 : forall o t (closed : list bool),
+  (forall r, is_path [] t r -> oexact_at o r) -> mir_sound o 0 ->
+  c_exists t = true -> okc_kids 0 [] t -> st_wit 0 [] (c_state t) ->
+  Forall2 (fun (b : bool) (R : rows) => b = true <-> ne R) closed (leaf_regions [] t) ->
+  nleaves (fst (elim o 0 t)) = count closed.
+Proof. exact elim_count_exact. Qed.
+(* a region with a strictly interior point is non-empty: "full-dimensional" is an admissible lower classification *)
+Theorem C06_interior_is_nonempty : forall R, interior R -> ne R.
+Proof. exact interior_ne. Qed.
+(* the same along pipelines (root possibly with a single branch); pinv is kept by every run (C06_pipeline_invariant) *)
+Theorem C06_count_mask_pipeline : forall o tol t, 0 <= tol -> (forall r, is_path [] t r -> oexact_at o r) -> mir_sound o tol ->
+  pinv tol t ->
+  exists m : list bool,
+    length m = length (leaf_regions [] t) /\
+    leaf_funcs (fst (elim o tol t)) = select m (leaf_funcs t) /\
+    Forall2 (fun (b : bool) (R : rows) => (b = true -> ne_tol tol R) /\ (ne R -> b = true)) m (leaf_regions [] t).
+Proof. exact elim_count_pinv. Qed.
+Theorem C06_count_between_pipeline : forall o tol t (full closed : list bool), 0 <= tol ->
+  (forall r, is_path [] t r -> oexact_at o r) -> mir_sound o tol -> pinv tol t ->
+  Forall2 (fun (b : bool) (R : rows) => b = true -> ne R) full (leaf_regions [] t) ->
+  Forall2 (fun (b : bool) (R : rows) => ne_tol tol R -> b = true) closed (leaf_regions [] t) ->
+  (count full <= nleaves (fst (elim o tol t)) <= count closed)%nat.
+Proof. exact elim_count_between_pinv. Qed.
+Theorem C06_count_hyps_fresh : forall tol t, c_exists t = true -> fresh t -> ctotal t ->
+  c_exists t = true /\ okc_kids tol [] t /\ st_wit tol [] (c_state t).
+Proof. exact count_hyps_fresh. Qed.
+Theorem C06_count_hyps_rerun : forall o tol t, 0 <= tol -> (forall r, is_path [] t r -> oexact_at o r) -> mir_sound o tol ->
+  pinv tol t -> pinv tol (fst (elim o tol t)).
+Proof. exact count_hyps_rerun. Qed.
+(* x <= 0 then x <= 1 on both sides: 4 activation regions, one empty, 3 terminals left *)
+Example C06_count_nonvacuous :
+  ((forall r, is_path [] cx_t r -> oexact_at ex_o r) /\ mir_sound ex_o 0 /\
+   c_exists cx_t = true /\ okc_kids 0 [] cx_t /\ st_wit 0 [] (c_state cx_t)) /\
+  length (leaf_regions [] cx_t) = 4%nat /\
+  nleaves (fst (elim ex_o 0 cx_t)) = 3%nat /\ count cx_mask = 3%nat /\
+  leaf_funcs (fst (elim ex_o 0 cx_t)) = select cx_mask (leaf_funcs cx_t) /\
+  Forall2 (fun (b : bool) (R : rows) => b = true <-> ne R) cx_mask (leaf_regions [] cx_t) /\
+  Forall2 (fun (b : bool) (R : rows) => b = true -> interior R) cx_mask (leaf_regions [] cx_t).
+Proof. exact cx_count. Qed.
+Print Assumptions C06_count_mask.
+Print Assumptions C06_count_between.
+Print Assumptions C06_count_exact_tol0.
+Print Assumptions C06_interior_is_nonempty.
+Print Assumptions C06_count_mask_pipeline.
+Print Assumptions C06_count_between_pipeline.
+Print Assumptions C06_count_hyps_fresh.
+Print Assumptions C06_count_hyps_rerun.
+Print Assumptions C06_count_nonvacuous.
